@@ -2,6 +2,9 @@
 // Every public spelling is called as the user would write it (member function, operator, compound
 // assignment, free operator).
 #include "common.hpp"
+#include <cstdio>
+#include <cstdlib>
+#include <memory>
 #include "libphysica/Linear_Algebra.hpp"
 using namespace libphysica;
 
@@ -21,8 +24,88 @@ static void put(vh::Out& o, const Vector& v)
 	for(unsigned int i = 0; i < v.Size(); i++)
 		o.f(v[i]);
 }
-static Matrix rd_mat(vh::Reader& r) { return Matrix(r.table()); }
-static Vector rd_vec(vh::Reader& r) { return Vector(r.list()); }
+// `hist <op> ...`: every matrix / vector argument is followed by `k step_1 .. step_k`, a call history that is applied
+// to the freshly constructed object before the operation sees it (grammar and reference semantics: checks/C04.py).
+static bool g_hist = false;
+static Matrix rd_mat(vh::Reader& r)
+{
+	Matrix fresh(r.table());
+	if(!g_hist)
+		return fresh;
+	std::unique_ptr<Matrix> A(new Matrix(fresh));
+	long k = r.integer();
+	for(long s = 0; s < k; s++)
+	{
+		std::string st = r.word();
+		if(st == "rs") { long p = r.integer(), q = r.integer(); A->Resize((int) p, (int) q); }
+		else if(st == "as") { long p = r.integer(), q = r.integer(); double e = r.num(); A->Assign((int) p, (int) q, e); }
+		else if(st == "dr") { long i = r.integer(); A->Delete_Row((unsigned int) i); }
+		else if(st == "dc") { long i = r.integer(); A->Delete_Column((unsigned int) i); }
+		else if(st == "st") { long i = r.integer(), j = r.integer(); double x = r.num(); (*A)[(unsigned int) i][j] = x; }
+		else if(st == "cp") { A.reset(new Matrix(*A)); }
+		else if(st == "eq")
+		{
+			// assignment into objects that had another (larger, smaller) shape before
+			Matrix B(A->Rows() + 1, A->Columns() + 2, 7.0);
+			B = *A;
+			Matrix C(1, 1, 3.0);
+			C  = B;
+			*A = C;
+		}
+		else if(st == "se") { *A = *A; }
+		else if(st == "pa") { Matrix B(r.table()); *A += B; }
+		else if(st == "ma") { Matrix B(r.table()); *A -= B; }
+		else if(st == "sa") { *A += *A; }
+		else if(st == "ss") { *A -= *A; }
+		else if(st == "pl") { Matrix B(r.table()); *A = *A + B; }
+		else if(st == "mi") { Matrix B(r.table()); *A = *A - B; }
+		else if(st == "tr") { *A = A->Transpose(); }
+		else if(st == "ms") { double x = r.num(); *A = *A * x; }
+		else if(st == "dv") { double x = r.num(); *A = *A / x; }
+		else if(st == "z") { long p = r.integer(), q = r.integer(); *A = Matrix((unsigned int) p, (unsigned int) q); }
+		else if(st == "df") { *A = Matrix(); }
+		else { std::fprintf(stderr, "unknown step\n"); std::abort(); }
+	}
+	return *A;
+}
+static Vector rd_vec(vh::Reader& r)
+{
+	Vector fresh(r.list());
+	if(!g_hist)
+		return fresh;
+	std::unique_ptr<Vector> v(new Vector(fresh));
+	long k = r.integer();
+	for(long s = 0; s < k; s++)
+	{
+		std::string st = r.word();
+		if(st == "rs") { long p = r.integer(); v->Resize((unsigned int) p); }
+		else if(st == "as") { long p = r.integer(); double e = r.num(); v->Assign((unsigned int) p, e); }
+		else if(st == "st") { long i = r.integer(); double x = r.num(); (*v)[(unsigned int) i] = x; }
+		else if(st == "cp") { v.reset(new Vector(*v)); }
+		else if(st == "eq")
+		{
+			Vector b(v->Size() + 3, 7.0);
+			b = *v;
+			Vector c(1, 3.0);
+			c  = b;
+			*v = c;
+		}
+		else if(st == "se") { *v = *v; }
+		else if(st == "pa") { Vector b(r.list()); *v += b; }
+		else if(st == "ma") { Vector b(r.list()); *v -= b; }
+		else if(st == "sa") { *v += *v; }
+		else if(st == "ss") { *v -= *v; }
+		else if(st == "pl") { Vector b(r.list()); *v = *v + b; }
+		else if(st == "mi") { Vector b(r.list()); *v = *v - b; }
+		else if(st == "ms") { double x = r.num(); *v = *v * x; }
+		else if(st == "sm") { double x = r.num(); *v = x * *v; }
+		else if(st == "dv") { double x = r.num(); *v = *v / x; }
+		else if(st == "z") { long p = r.integer(); *v = Vector((unsigned int) p); }
+		else if(st == "df") { *v = Vector(); }
+		else { std::fprintf(stderr, "unknown step\n"); std::abort(); }
+	}
+	return *v;
+}
 static Matrix rd_block(vh::Reader& r)
 {
 	long rr = r.integer(), cc = r.integer();
@@ -50,6 +133,12 @@ static Matrix row_matrix(const Vector& v)
 static void handler(vh::Reader& r, vh::Out& o)
 {
 	std::string op = r.word();
+	g_hist		   = false;
+	if(op == "hist")
+	{
+		g_hist = true;
+		op	   = r.word();
+	}
 	if(op == "m_plus") { Matrix A = rd_mat(r), B = rd_mat(r); put(o, A.Plus(B)); }
 	else if(op == "m_minus") { Matrix A = rd_mat(r), B = rd_mat(r); put(o, A.Minus(B)); }
 	else if(op == "m_op_plus") { Matrix A = rd_mat(r), B = rd_mat(r); put(o, A + B); }
@@ -93,6 +182,9 @@ static void handler(vh::Reader& r, vh::Out& o)
 	else if(op == "return_column") { Matrix A = rd_mat(r); long i = r.integer(); put(o, A.Return_Column((unsigned int) i)); }
 	else if(op == "m_eq") { Matrix A = rd_mat(r), B = rd_mat(r); o.i((A == B) ? 1 : 0); }
 	else if(op == "m_at") { Matrix A = rd_mat(r); long i = r.integer(), j = r.integer(); o.f(A[(unsigned int) i][j]); }
+	else if(op == "v_at") { Vector v = rd_vec(r); long i = r.integer(); o.f(v[(unsigned int) i]); }
+	else if(op == "m_show") { Matrix A = rd_mat(r); put(o, A); }
+	else if(op == "v_show") { Vector v = rd_vec(r); put(o, v); }
 	else if(op == "identity") { long k = r.integer(); put(o, Identity_Matrix((unsigned int) k)); }
 	else if(op == "mat_diag") { std::vector<double> d = r.list(); put(o, Matrix(d)); }
 	else if(op == "mat_fill") { long a = r.integer(), b = r.integer(); double e = r.num(); put(o, Matrix((unsigned int) a, (unsigned int) b, e)); }
